@@ -20,6 +20,9 @@ Lemmas:
      every cache whose sections are what `parse` reads back from the emitted file: classes strictly sorted, every class's ranges inside the
      sections (tiling), members sorted by name, by-params records by (name, parameters), `wf_member` for every record (strings readable,
      numbers in the domain, `u32::MAX` never a readable offset), original names interned (canonical offsets).
+  6. C01, last clause: `built(pre + b1 + b2 + post) == built(pre + b2 + b1 + post)` for two complete, distinctly named class blocks -- the mapper does
+     not depend on the order of class blocks (any reordering is a sequence of such transpositions). Via a segment-wise fold `fold_from` and
+     `lemma_block_from_any_state`: what a block leaves as class in progress depends on the block alone.
 ASSUMED: BTreeMap<&str, V> and BTreeMap<(&str, &str), V> iterate in strictly ascending (lexicographic) key order and `vals` are the values in that order (std);
 the string-table round trip of watto for the strings of the records (`resolves`: an offset handed out reads back the string from the
 final table's bytes; offsets below 2^32-1).
@@ -809,6 +812,172 @@ pub proof fn lemma_cache_written_from_a_mapping_satisfies_the_readers_invariant<
             && tbl(sb, (#[trigger] fm[x]).original_name_offset) == tbl(sb, (#[trigger] fm[y]).original_name_offset) implies fm[x].original_name_offset == fm[y].original_name_offset by {
             assert(member_ok(tn, fm[x]) && member_ok(tn, fm[y]));
         }
+    }
+}
+
+
+// ======== C01, last clause: the mapper does not depend on the order of distinctly named class blocks ========
+pub open spec fn is_class_rec<'s>(r: ProguardRecord<'s>) -> bool { r is Class }
+// a block: one class record followed by records that are not class records
+pub open spec fn is_block<'s>(b: Seq<ProguardRecord<'s>>) -> bool { b.len() >= 1 && is_class_rec(b[0]) && forall|i: int| 1 <= i < b.len() ==> !is_class_rec(#[trigger] b[i]) }
+pub open spec fn after_of<'a, 's>(seg: Seq<ProguardRecord<'s>>, after: Option<&'a ProguardRecord<'s>>, n: int) -> Option<&'a ProguardRecord<'s>> { if 0 <= n < seg.len() { Some(&seg[n]) } else { after } }
+// the builder state after the first n records of `seg`, started in state s; `after` is the record that follows the segment (look-ahead)
+pub open spec fn fold_from<'a, 's>(s: AState<'s>, seg: Seq<ProguardRecord<'s>>, after: Option<&'a ProguardRecord<'s>>, init: bool, n: int) -> AState<'s>
+    decreases n
+{ if n <= 0 { s } else { astep(fold_from(s, seg, after, init, n - 1), init, seg[n - 1], after_of(seg, after, n)) } }
+
+pub proof fn lemma_run_is_fold<'s>(recs: Seq<ProguardRecord<'s>>, init: bool, n: int)
+    requires 0 <= n <= recs.len(),
+    ensures run(recs, init, n) == fold_from(start_state(), recs, None, init, n),
+    decreases n
+{ if n > 0 { lemma_run_is_fold(recs, init, n - 1); } }
+
+// folding over a concatenation = folding over the first part (looking ahead into the second), then over the second
+pub proof fn lemma_fold_concat<'a, 's>(s: AState<'s>, x: Seq<ProguardRecord<'s>>, y: Seq<ProguardRecord<'s>>, after: Option<&'a ProguardRecord<'s>>, init: bool, n: int)
+    requires 0 <= n <= y.len(),
+    ensures fold_from(s, x + y, after, init, x.len() + n) == fold_from(fold_from(s, x, after_of(y, after, 0), init, x.len() as int), y, after, init, n),
+    decreases n
+{
+    let xy = x + y;
+    if n == 0 {
+        lemma_fold_prefix(s, x, y, after, init, x.len() as int);
+    } else {
+        lemma_fold_concat(s, x, y, after, init, n - 1);
+        assert(xy[x.len() + n - 1] == y[n - 1]);
+        assert(after_of(xy, after, x.len() + n) == after_of(y, after, n)) by { if n < y.len() { assert(xy[x.len() + n] == y[n]); } }
+    }
+}
+pub proof fn lemma_fold_prefix<'a, 's>(s: AState<'s>, x: Seq<ProguardRecord<'s>>, y: Seq<ProguardRecord<'s>>, after: Option<&'a ProguardRecord<'s>>, init: bool, k: int)
+    requires 0 <= k <= x.len(),
+    ensures fold_from(s, x + y, after, init, k) == fold_from(s, x, after_of(y, after, 0), init, k),
+    decreases k
+{
+    let xy = x + y;
+    if k > 0 {
+        lemma_fold_prefix(s, x, y, after, init, k - 1);
+        assert(xy[k - 1] == x[k - 1]);
+        assert(after_of(xy, after, k) == after_of(x, after_of(y, after, 0), k)) by {
+            if k < x.len() { assert(xy[k] == x[k]); } else if y.len() > 0 { assert(xy[k] == y[0]); }
+        }
+    }
+}
+// what a block does to the state: the class in progress is finished (flush), and the new class in progress and the de-duplication set depend on the
+// block alone -- not on the state before it, and not on what follows as long as that is not a method record
+pub open spec fn fresh_state<'s>() -> AState<'s> { start_state() }
+pub proof fn lemma_block_from_any_state<'a, 's>(s: AState<'s>, t: AState<'s>, b: Seq<ProguardRecord<'s>>, after1: Option<&'a ProguardRecord<'s>>, after2: Option<&'a ProguardRecord<'s>>, init: bool, n: int)
+    requires is_block(b), 1 <= n <= b.len(),
+        !(after1 is Some && *after1->0 is Method), !(after2 is Some && *after2->0 is Method),
+    ensures
+        fold_from(s, b, after1, init, n).cur == fold_from(t, b, after2, init, n).cur,
+        fold_from(s, b, after1, init, n).seen == fold_from(t, b, after2, init, n).seen,
+        fold_from(s, b, after1, init, n).done == flush(s.done, s.cur),
+    decreases n
+{
+    if n > 1 {
+        lemma_block_from_any_state(s, t, b, after1, after2, init, n - 1);
+        assert(!is_class_rec(b[n - 1]));
+        let s1 = fold_from(s, b, after1, init, n - 1); let t1 = fold_from(t, b, after2, init, n - 1);
+        match b[n - 1] {
+            ProguardRecord::Method { ty, original, obfuscated, arguments, original_class, line_mapping } => {
+                assert(is_inlined_callee(line_mapping, after_of(b, after1, n)) == is_inlined_callee(line_mapping, after_of(b, after2, n)));
+            },
+            _ => {},
+        }
+    } else {
+        assert(is_class_rec(b[0]));
+    }
+}
+
+pub proof fn lemma_fold_after_nonmethod<'a, 's>(s: AState<'s>, seg: Seq<ProguardRecord<'s>>, after1: Option<&'a ProguardRecord<'s>>, after2: Option<&'a ProguardRecord<'s>>, init: bool, n: int)
+    requires 0 <= n <= seg.len(), !(after1 is Some && *after1->0 is Method), !(after2 is Some && *after2->0 is Method),
+    ensures fold_from(s, seg, after1, init, n) == fold_from(s, seg, after2, init, n),
+    decreases n
+{
+    if n > 0 {
+        lemma_fold_after_nonmethod(s, seg, after1, after2, init, n - 1);
+        match seg[n - 1] {
+            ProguardRecord::Method { ty, original, obfuscated, arguments, original_class, line_mapping } => {
+                assert(is_inlined_callee(line_mapping, after_of(seg, after1, n)) == is_inlined_callee(line_mapping, after_of(seg, after2, n)));
+            },
+            _ => {},
+        }
+    }
+}
+// once a class record has been processed, only `flush(done, cur)` of the state before it matters
+pub proof fn lemma_fold_same_after_class<'a, 's>(s: AState<'s>, t: AState<'s>, seg: Seq<ProguardRecord<'s>>, after: Option<&'a ProguardRecord<'s>>, init: bool, n: int)
+    requires 1 <= n <= seg.len(), is_class_rec(seg[0]), flush(s.done, s.cur) == flush(t.done, t.cur),
+    ensures fold_from(s, seg, after, init, n) == fold_from(t, seg, after, init, n),
+    decreases n
+{
+    if n > 1 { lemma_fold_same_after_class(s, t, seg, after, init, n - 1); }
+    else {
+        assert(fold_from(s, seg, after, init, 0) == s && fold_from(t, seg, after, init, 0) == t);
+        match seg[0] { ProguardRecord::Class { original, obfuscated } => {}, _ => {} }
+    }
+}
+pub open spec fn block_key<'s>(b: Seq<ProguardRecord<'s>>) -> &'s str { match b[0] { ProguardRecord::Class { original, obfuscated } => obfuscated, _ => "" } }
+pub proof fn lemma_flush_commutes<'s>(d: Map<&'s str, AClass<'s>>, c1: AClass<'s>, c2: AClass<'s>)
+    requires c1.obfuscated != c2.obfuscated,
+    ensures flush(flush(d, c1), c2) == flush(flush(d, c2), c1),
+{
+    assert(flush(flush(d, c1), c2) =~= flush(flush(d, c2), c1));
+}
+pub proof fn lemma_block_cur_key<'a, 's>(s: AState<'s>, b: Seq<ProguardRecord<'s>>, after: Option<&'a ProguardRecord<'s>>, init: bool, n: int)
+    requires is_block(b), 1 <= n <= b.len(),
+    ensures fold_from(s, b, after, init, n).cur.obfuscated == block_key(b),
+    decreases n
+{
+    if n > 1 { lemma_block_cur_key(s, b, after, init, n - 1); assert(!is_class_rec(b[n - 1])); }
+}
+
+// THE ORDER OF TWO NEIGHBOURING, DISTINCTLY NAMED CLASS BLOCKS DOES NOT MATTER (what comes before and after them is arbitrary, except that what follows starts
+// with a class record or is empty, i.e. the two blocks are complete)
+pub proof fn lemma_order_of_distinctly_named_class_blocks_does_not_matter<'s>(pre: Seq<ProguardRecord<'s>>, b1: Seq<ProguardRecord<'s>>, b2: Seq<ProguardRecord<'s>>,
+        post: Seq<ProguardRecord<'s>>, init: bool)
+    requires is_block(b1), is_block(b2), post.len() == 0 || is_class_rec(post[0]), block_key(b1) != block_key(b2),
+    ensures /*@L:mapper_does_not_depend_on_the_order_of_distinctly_named_class_blocks:C01*/ built(pre + b1 + b2 + post, init) == built(pre + b2 + b1 + post, init),
+{
+    let r12 = pre + b1 + b2 + post; let r21 = pre + b2 + b1 + post;
+    let s0 = start_state::<'s>();
+    let aft = after_of(post, None, 0);
+    let l = pre.len() as int; let n1 = b1.len() as int; let n2 = b2.len() as int; let np = post.len() as int;
+    lemma_run_is_fold(r12, init, r12.len() as int);
+    lemma_run_is_fold(r21, init, r21.len() as int);
+    // decompose both folds: ((pre + bX) + bY) + post
+    lemma_fold_concat(s0, pre + b1 + b2, post, None, init, np);
+    lemma_fold_concat(s0, pre + b1, b2, aft, init, n2);
+    lemma_fold_concat(s0, pre, b1, after_of(b2, aft, 0), init, n1);
+    lemma_fold_concat(s0, pre + b2 + b1, post, None, init, np);
+    lemma_fold_concat(s0, pre + b2, b1, aft, init, n1);
+    lemma_fold_concat(s0, pre, b2, after_of(b1, aft, 0), init, n2);
+    let a_b1 = after_of(b1, after_of(b2, aft, 0), 0); let a_b2 = after_of(b2, after_of(b1, aft, 0), 0);
+    assert(a_b1 == Some(&b1[0]) && a_b2 == Some(&b2[0]));
+    // the state after `pre` is the same in both orders (the look-ahead is a class record either way)
+    let sp1 = fold_from(s0, pre, a_b1, init, l); let sp2 = fold_from(s0, pre, a_b2, init, l);
+    lemma_fold_after_nonmethod(s0, pre, a_b1, a_b2, init, l);
+    assert(sp1 == sp2);
+    // order 1: pre, b1, b2      order 2: pre, b2, b1
+    let x1 = fold_from(sp1, b1, after_of(b2, aft, 0), init, n1);
+    let x12 = fold_from(x1, b2, aft, init, n2);
+    let y2 = fold_from(sp2, b2, after_of(b1, aft, 0), init, n2);
+    let y21 = fold_from(y2, b1, aft, init, n1);
+    assert(after_of(b2, aft, 0) == Some(&b2[0]) && after_of(b1, aft, 0) == Some(&b1[0]));
+    assert(!(aft is Some && *aft->0 is Method)) by { if post.len() > 0 { assert(aft == Some(&post[0])); } }
+    lemma_block_from_any_state(sp1, y2, b1, after_of(b2, aft, 0), aft, init, n1);      // C1, X1 the same wherever b1 stands
+    lemma_block_from_any_state(sp2, x1, b2, after_of(b1, aft, 0), aft, init, n2);      // C2, X2 likewise
+    lemma_block_from_any_state(x1, x1, b2, aft, aft, init, n2);
+    lemma_block_from_any_state(y2, y2, b1, aft, aft, init, n1);
+    lemma_block_cur_key(sp1, b1, after_of(b2, aft, 0), init, n1);
+    lemma_block_cur_key(sp2, b2, after_of(b1, aft, 0), init, n2);
+    let d0 = flush(sp1.done, sp1.cur);
+    assert(x12.done == flush(d0, x1.cur) && x12.cur == y2.cur);
+    assert(y21.done == flush(d0, y2.cur) && y21.cur == x1.cur);
+    lemma_flush_commutes(d0, x1.cur, y2.cur);
+    assert(flush(x12.done, x12.cur) == flush(y21.done, y21.cur));
+    if np == 0 {
+        assert(r12 =~= pre + b1 + b2 && r21 =~= pre + b2 + b1);
+    } else {
+        lemma_fold_same_after_class(x12, y21, post, None, init, np);
     }
 }
 
